@@ -21,7 +21,7 @@ func VP_C10_ntlm_message() {
 	msg := vpBytes("msg", vpParam("n"))
 	vpWire["m"] = msg
 	if vpBool("after-negotiate") {
-		c := h.getContext("s")
+		c := vpCtxOf(h.getContext("s"))
 		c.session = &ntlm.V2ServerSession{}
 	}
 	r, _ := h.Authenticate(&auth.NtlmRequest{Session: "s", NtlmMessage: "m"})
@@ -49,7 +49,7 @@ func VP_C10_ntlm_descriptor() {
 	msg[d+2], msg[d+3] = byte(ln), byte(ln>>8)
 	msg[d+4], msg[d+5], msg[d+6], msg[d+7] = byte(off), byte(off>>8), byte(off>>16), byte(off>>24)
 	vpWire["m"] = msg
-	c := h.getContext("s")
+	c := vpCtxOf(h.getContext("s"))
 	c.session = &ntlm.V2ServerSession{}
 	r, _ := h.Authenticate(&auth.NtlmRequest{Session: "s", NtlmMessage: "m"})
 	vpReach("answered")
